@@ -168,6 +168,7 @@ type 'atom pv =
 type ('atom, 'cv) sval =
 | SObj of 'atom pv
 | SC of 'cv
+| SDangling
 
 type pytype = { t_hier : hierarchy; t_pydict : bool }
 
@@ -193,6 +194,7 @@ type err =
 | ENoDict
 | EDictUpdate
 | EAttr of name
+| EUB
 | EOther
 
 type 'a res =
